@@ -67,8 +67,14 @@ func (p *Program) verifyFunction(f *ssa.Function, ct *Contract, sweep, refute bo
 			vc.obls = append(vc.obls, &Obligation{Name: p.shortName(f) + "/cover/requires-satisfiable", Kind: "cover", Props: ct.allProps(), Goal: TFalse, Reach: TTrue, NFacts: len(vc.facts), Fn: f.String(), Expect: "sat"})
 		}
 	}
+	fr0.ghostCode(ct, "enter", st, env)
 	res := vc.execTop(f, binds, args, st, ct, env)
 	if ct != nil && st.Reach != TFalse {
+		if vc.topFrame != nil {
+			// clauses are evaluated in the frame that executed the body, so that they can name its local variables (#x)
+			vc.topFrame.specEnv = env
+			fr0 = vc.topFrame
+		}
 		// results
 		sig := f.Signature
 		rn := ct.Results
@@ -93,12 +99,42 @@ func (p *Program) verifyFunction(f *ssa.Function, ct *Contract, sweep, refute bo
 				env["result"] = SVal{V: v, T: t}
 			}
 		}
+		fr0.ghostCode(ct, "leave", st, env)
 		ev := &SpecEval{vc: vc, fr: fr0, names: env, cur: st, old: pre}
 		if !sweep {
+			// postconditions are checked on every return edge separately (the state of one exit is much simpler than
+			// the merge of all of them); canaries, covers and frames use the merged exit state
+			var exits []*SpecEval
+			if len(vc.topRets) > 1 {
+				for _, r := range vc.topRets {
+					if r.St == nil || r.St.Reach == TFalse {
+						continue
+					}
+					renv := map[string]SVal{}
+					for k, v := range env {
+						renv[k] = v
+					}
+					bindResults(ct, sig, r.Val, renv)
+					rst := r.St.clone()
+					fr0.ghostCode(ct, "leave", rst, renv)
+					exits = append(exits, &SpecEval{vc: vc, fr: fr0, names: renv, cur: rst, old: pre})
+				}
+			}
 			for _, cl := range ct.Clauses {
 				switch cl.Kind {
 				case "ensures":
-					vc.oblige(st, "post", cl.Label, ct.clauseProps(cl), ev.evalBool(cl.Expr), f.Pos())
+					evs := []*SpecEval{ev}
+					if len(exits) > 1 {
+						evs = exits
+					}
+					for _, xe := range evs {
+						n := len(vc.obls)
+						vc.oblige(xe.cur, "post", cl.Label, ct.clauseProps(cl), xe.evalBool(cl.Expr), f.Pos())
+						if cl.Expr.Kind == "binary" && cl.Expr.Name == "==>" && len(vc.obls) > n && vc.obls[n].Status == "" {
+							// "A ==> B": on an exit where A cannot hold the obligation is settled without looking at B
+							vc.obls[n].Alt = Not(xe.evalBool(cl.Expr.Args[0]))
+						}
+					}
 				case "canary":
 					// a deliberately false postcondition: must be refuted
 					o := &Obligation{Name: vc.oblName("canary", cl.Label), Kind: "canary", Props: ct.clauseProps(cl), Goal: ev.evalBool(cl.Expr), Reach: st.Reach, NFacts: len(vc.facts), Fn: f.String(), Expect: "sat"}
@@ -121,6 +157,11 @@ func (p *Program) verifyFunction(f *ssa.Function, ct *Contract, sweep, refute bo
 					listed[a] = true
 					if a == "*" {
 						star = true
+					}
+				}
+				for _, cl := range ct.Clauses {
+					if cl.Kind == "enter" || cl.Kind == "leave" {
+						listed[cl.Label] = true
 					}
 				}
 				for _, g := range p.specs.GhostList {
@@ -168,7 +209,7 @@ func (vc *VC) wellFormed(st *State, v Value) {
 
 // execTop runs the function under proof with its own contract's invariants and spec environment
 func (vc *VC) execTop(f *ssa.Function, binds, args []Value, st *State, ct *Contract, env map[string]SVal) Value {
-	fr := &Frame{vc: vc, fn: f, env: map[ssa.Value]Value{}, cells: map[*ssa.Alloc]*LocalCell{}, loops: vc.prog.loopsOf(f), contract: ct, specEnv: env}
+	fr := &Frame{vc: vc, fn: f, env: map[ssa.Value]Value{}, cells: map[*ssa.Alloc]*LocalCell{}, loops: vc.prog.loopsOf(f), contract: ct, specEnv: env, entryAlloc: vc.allocN}
 	fr.entry = st.clone()
 	for i, p := range f.Params {
 		fr.env[p] = args[i]
@@ -184,6 +225,8 @@ func (vc *VC) execTop(f *ssa.Function, binds, args []Value, st *State, ct *Contr
 	for _, r := range fr.rets {
 		sts = append(sts, r.St)
 	}
+	vc.topRets = fr.rets
+	vc.topFrame = fr
 	m := mergeStates(sts)
 	if m == nil {
 		st.Reach = TFalse
@@ -358,6 +401,15 @@ func (vc *VC) discharge(dir string, timeout int, thorough bool) {
 		}
 		file := filepath.Join(dir, fmt.Sprintf("%s_%d.smt2", sanitize(vc.prog.shortName(vc.top)), i))
 		q := o.query(vc, nil)
+		if o.Expect == "unsat" && o.Alt != nil {
+			saved := o.Goal
+			o.Goal = o.Alt
+			aq, _ := o.relevantQuery(vc, true)
+			os.WriteFile(file+".ag", []byte("; "+o.Name+" (antecedent refuted, ground relaxation)\n"+aq), 0o644)
+			aq2, _ := o.relevantQuery(vc, false)
+			os.WriteFile(file+".ar", []byte("; "+o.Name+" (antecedent refuted, cone of influence)\n"+aq2), 0o644)
+			o.Goal = saved
+		}
 		if o.Expect == "unsat" {
 			// stage files: ground relaxation (.g), cone of influence (.r), everything (plain)
 			gq, _ := o.relevantQuery(vc, true)
@@ -455,7 +507,7 @@ func solveOne(o *Obligation, file string, timeout int, thorough bool) {
 		}
 		return false
 	}
-	if stage(file+".g", "ground", 3) || stage(file+".r", "relevant", timeout) {
+	if stage(file+".ag", "antecedent-refuted/ground", 3) || stage(file+".ar", "antecedent-refuted", 5) || stage(file+".g", "ground", 3) || stage(file+".r", "relevant", timeout) {
 		o.Status = "discharged"
 		o.Output = strings.Join(log, "\n")
 		return
